@@ -217,11 +217,11 @@ pub fn cfg(kind: Kind, max_medium: usize) -> BoxedStrategy<(Cfg, &'static str)> 
         .prop_flat_map(move |(k, r, class)| {
             let big = k + r > 700;
             // many shards AND shards of several blocks at once (only for callers that accept the large class):
-            // 130 B .. 2.2 KiB, any residue mod 64, total shard data capped at 8 MiB (24 MiB when max_medium >= 2000)
+            // 130 B .. 2.2 KiB (sometimes up to 6.4 KiB), any residue mod 64, total shard data capped at 8 MiB (24 MiB when max_medium >= 2000)
             let s = if !big {
                 shard_size()
             } else if max_medium >= 1000 {
-                prop_oneof![6 => shard_size_small(), 1 => (65usize..=1100).prop_map(|h| h * 2)].boxed()
+                prop_oneof![12 => shard_size_small(), 2 => (65usize..=1100).prop_map(|h| h * 2), 1 => (1101usize..=3200).prop_map(|h| h * 2)].boxed()
             } else {
                 shard_size_small()
             };
